@@ -25,6 +25,11 @@ def sival(x):
     return si.si_val(x)
 
 
+class TooManyInstants(Exception):
+    """the run computed far more instants than the requested grid has (raised from the load callback so that a
+    runaway time axis ends the run instead of exhausting the exploration budget)"""
+
+
 class SimHarness(HarnessBase):
     """
     spec fields:
@@ -40,7 +45,7 @@ class SimHarness(HarnessBase):
     max_seconds = 500
 
     def __init__(self, topo, full=False, schedule=(('run', 2),), control=None, dt=0.125, units=None,
-                 props=('C01',), seed=0, dt_unit='sec', init_units=None, opt=None, tag=''):
+                 props=('C01',), seed=0, dt_unit='sec', init_units=None, opt=None, tag='', max_paths=None):
         self.topo_name = topo
         self.topo = CH.get_topology(topo, seed)
         self.full = full
@@ -51,13 +56,16 @@ class SimHarness(HarnessBase):
         self.dt_unit = dt_unit
         self.init_units = dict(init_units or {})
         self.props = tuple(props)
-        self.opt = opt or {}
+        self.opt_spec = dict(opt or {})
         self.name = 'sim:%s:%s:%s:%s%s' % (topo, 'full' if full else 'state',
                                            '+'.join('%s%s' % (o[0], o[1] if len(o) > 1 else '') for o in self.schedule),
                                            (control[0] if control else 'nocontrol'), tag)
         self.kmax = 16
         if full:
             self.max_paths = 600
+        if max_paths:
+            self.max_paths = max_paths
+            self.max_seconds = 2000
 
     def describe(self):
         return dict(topology=self.topo_name, kinds=['motor'] + [k for k, _ in self.topo['elements']],
@@ -77,15 +85,22 @@ class SimHarness(HarnessBase):
 
     # ------------------------------------------------------------------ run
     def run(self, env):
+        return self._run_one(env, self.schedule)
+
+    def _run_one(self, env, schedule):
         import gearpy.units as gu
         from gearpy.powertrain import Powertrain
         from gearpy.solver import Solver
-        M = CH.build(env, self.topo, full=self.full, units=self.units, opt=self.opt)
+        M = CH.build(env, self.topo, full=self.full, units=self.units, opt=self._opt())
         rec = dict(load_calls=[], duty=[], raised=None, runs=[])
         last = M.last
 
+        lim = dict(n=10 ** 9)
+
         def ext(time, angular_position, angular_speed):
             k = len(rec['load_calls'])
+            if k >= lim['n']:
+                raise TooManyInstants('instant %d computed but the requested grid ends at instant %d' % (k, lim['n'] - 1))
             v = env.real('load_%d' % k)
             rec['load_calls'].append(dict(t=sival(time), pos=sival(angular_position), spd=sival(angular_speed), val=v))
             return gu.Torque(v, 'Nm')
@@ -100,20 +115,25 @@ class SimHarness(HarnessBase):
         else:
             dt = self.dt
         rec['dt'] = dt
-        f_dt = float(si.SI['Time'][self.dt_unit])
         ctl = self._control(env, pt, M, rec)
         solver = Solver(powertrain=pt)
         rec['pwm_before'] = M.motor.pwm
         try:
-            for op in self.schedule:
-                if op[0] in ('run', 'run_stop'):
+            for op in schedule:
+                if op[0] in ('run', 'run_stop', 'run_nc'):
                     K = op[1]
-                    dtq = gu.TimeInterval(dt / f_dt if self.dt_unit != 'sec' else dt, self.dt_unit)
+                    unit = op[2] if (op[0] != 'run_stop' and len(op) > 2) else self.dt_unit
+                    f_u = float(si.SI['Time'][unit])
+                    dtq = gu.TimeInterval(dt / f_u if unit != 'sec' else dt, unit)
                     Tq = dtq * K
                     stop = self._stop(gu, env, M, op[2], rec) if op[0] == 'run_stop' else None
                     n0 = len(pt.time)
-                    solver.run(time_discretization=dtq, simulation_time=Tq, motor_control=ctl, stop_condition=stop)
-                    rec['runs'].append(dict(K=K, start=n0, end=len(pt.time), stopped=op[0] == 'run_stop'))
+                    lim['n'] = (n0 + K) if n0 else (K + 1)
+                    rec['runs'].append(dict(K=K, start=n0, end=None, stopped=op[0] == 'run_stop',
+                                            controlled=(ctl is not None and op[0] != 'run_nc')))
+                    solver.run(time_discretization=dtq, simulation_time=Tq,
+                               motor_control=None if op[0] == 'run_nc' else ctl, stop_condition=stop)
+                    rec['runs'][-1]['end'] = len(pt.time)
                 elif op[0] == 'reset':
                     pt.reset()
                     # the history restarts: per-instant callbacks are indexed from 0 again
@@ -125,11 +145,62 @@ class SimHarness(HarnessBase):
                 elif op[0] == 'reinit':
                     self._set_init(gu, last, th0, om0)
                     M.motor.pwm = rec['pwm_before']
-        except (ValueError, TypeError, ZeroDivisionError, KeyError, AttributeError, IndexError) as e:
+        except (ValueError, TypeError, ZeroDivisionError, KeyError, AttributeError, IndexError, TooManyInstants) as e:
             rec['raised'] = type(e).__name__
             rec['raised_msg'] = str(e)[:120]
+        for r in rec['runs']:
+            if r['end'] is None:
+                r['end'] = len(pt.time)
         self._record(rec, pt, M)
+        if 'stop' in rec:
+            self._stop_readings(rec, M)
+        if not env.symbolic and 'C17' in self.props and rec['raised'] is None and rec['n'] >= 2:
+            rec['_io'] = self._snapshot_and_export(pt, M)
         return rec
+
+    @staticmethod
+    def _snapshot_and_export(pt, M):
+        import io, contextlib, tempfile, shutil, os
+        res = {}
+        try:
+            with contextlib.redirect_stdout(io.StringIO()):
+                pt.snapshot(target_time=pt.time[len(pt.time) // 2], print_data=False)
+            res['snapshot'] = 'ok'
+        except Exception as e:  # noqa
+            res['snapshot'] = '%s: %s' % (type(e).__name__, str(e)[:100])
+        d = tempfile.mkdtemp(prefix='verif_c17_')
+        try:
+            pt.export_time_variables(folder_path=d)
+            res['export'] = 'ok'
+        except Exception as e:  # noqa
+            res['export'] = '%s: %s' % (type(e).__name__, str(e)[:100])
+        finally:
+            shutil.rmtree(d, ignore_errors=True)
+        return res
+
+    def _stop_readings(self, rec, M):
+        """apply the library's own operator to every recorded sample of the sensed variable"""
+        from gearpy.utils import StopCondition
+        st = rec['stop']
+        q = st.pop('thr_q')
+        opf = getattr(StopCondition, st['op'])
+        samples = M.objs[st['idx']].time_variables[st['var']]
+        st['truth'] = [bool(opf(sensor_value=x, threshold=q)) for x in samples]
+
+    def _opt(self):
+        """optional constructor data: {element index: (('module', mm), ('face_width', mm), ('elastic_modulus', GPa),
+        ('reference_diameter', mm))} -> gearpy quantities"""
+        import gearpy.units as gu
+        out = {}
+        for idx, items in self.opt_spec.items():
+            d = {}
+            for k, v in dict(items).items():
+                if k in ('module', 'face_width', 'reference_diameter'):
+                    d[k] = gu.Length(v, 'mm')
+                elif k == 'elastic_modulus':
+                    d[k] = gu.Stress(v, 'GPa')
+            out[idx] = d
+        return out
 
     def _set_init(self, gu, last, th0, om0):
         pu = self.init_units.get('pos', 'rad')
@@ -163,10 +234,48 @@ class SimHarness(HarnessBase):
                     return d
             ctl.add_rule(Arb())
             return ctl
+        if c[0] == 'arbopt2':
+            # two optional arbitrary rules: both may be applicable at the same instant
+            rec['props2'] = []
+
+            def mk(j):
+                class Opt(RuleBase):
+                    def __init__(s):
+                        pass
+
+                    def apply(s):
+                        k = len(rec['props2']) // 2 if j == 0 else (len(rec['props2']) - 1) // 2
+                        sel = env.real('sel%d_%d' % (j, k))
+                        v = env.real('prop%d_%d' % (j, k), lo=-1, hi=1) if sel > 0 else None
+                        rec['props2'].append(v)
+                        return v
+                return Opt()
+            ctl.add_rule(mk(0))
+            ctl.add_rule(mk(1))
+            return ctl
         raise KeyError(c)
 
     def _stop(self, gu, env, M, spec, rec):
-        raise NotImplementedError
+        """spec = (sensor kind, element index, operator name, threshold unit)"""
+        from gearpy.sensors import AbsoluteRotaryEncoder, Tachometer, Amperometer
+        from gearpy.utils import StopCondition
+        kind, idx, opname, unit = spec
+        thr = env.real('thr')
+        if kind == 'encoder':
+            sensor = AbsoluteRotaryEncoder(target=M.objs[idx])
+            q = gu.AngularPosition(thr, unit)
+            var = 'angular position'
+        elif kind == 'tachometer':
+            sensor = Tachometer(target=M.objs[idx])
+            q = gu.AngularSpeed(thr, unit)
+            var = 'angular speed'
+        else:
+            sensor = Amperometer(target=M.motor)
+            q = gu.Current(thr, unit)
+            var = 'electric current'
+            idx = 0
+        rec['stop'] = dict(var=var, idx=idx, op=opname, thr=sival(q), thr_q=q)
+        return StopCondition(sensor=sensor, threshold=q, operator=getattr(StopCondition, opname))
 
     def _record(self, rec, pt, M):
         rec['time'] = [sival(t) for t in pt.time]
@@ -194,6 +303,11 @@ class SimHarness(HarnessBase):
             return [holds('run_completes', False, info=repr(out.exc))]
         rec = out.value
         obs = []
+        if rec['raised'] is not None and 'C17' in self.props and rec['raised'] == 'ValueError' and (
+                'Gear mating not defined' in rec.get('raised_msg', '') or 'Impossible to compute contact stress'
+                in rec.get('raised_msg', '')):
+            # documented refusal (C09): such a model is never "simulated", outside C17's quantifier
+            return [holds('tv.documented_refusal', True)]
         if rec['raised'] is not None and 'C14' not in self.props:
             obs.append(holds('run_completes', False, info='%s: %s' % (rec['raised'], rec.get('raised_msg'))))
         for p in self.props:
@@ -390,6 +504,54 @@ class SimHarness(HarnessBase):
         if self.control is None:
             for k, p in enumerate(pw):
                 obs.append(eq('pwm.default_without_control[k=%d]' % k, p, rec['pwm_before']))
+        if self.control and self.control[0] == 'arbopt2':
+            pr = rec['props2']
+            pairs = [(pr[2 * k], pr[2 * k + 1]) for k in range(len(pr) // 2)]
+            conflict_at = None
+            for k, (a, b) in enumerate(pairs):
+                if a is not None and b is not None:
+                    conflict_at = k
+                    break
+            if conflict_at is None:
+                obs.append(holds('pwm.no_error_without_conflict', rec['raised'] is None,
+                                 info='%s: %s' % (rec['raised'], rec.get('raised_msg'))))
+                for k, (a, b) in enumerate(pairs[:len(pw)]):
+                    if a is None and b is None:
+                        obs.append(eq('pwm.default_is_one[k=%d]' % k, pw[k], 1))
+                    else:
+                        obs.append(eq('pwm.single_rule_wins[k=%d]' % k, pw[k], a if a is not None else b))
+            else:
+                obs.append(holds('pwm.conflict_raises_ValueError', rec['raised'] == 'ValueError',
+                                 info='two applicable rules at instant %d, raised=%s' % (conflict_at, rec['raised'])))
+                obs.append(holds('pwm.simulation_stops_at_conflict', len(pw) == conflict_at and len(pairs) == conflict_at + 1,
+                                 info='conflict at instant %d but %d duty cycles recorded, %d instants consulted'
+                                      % (conflict_at, len(pw), len(pairs))))
+        return obs
+
+    def ob_C16(self, rec):
+        obs = []
+        if 'stop' not in rec or 'truth' not in rec['stop']:
+            return [holds('stop.condition_installed', False)]
+        st = rec['stop']
+        r = rec['runs'][-1]
+        fresh = r['start'] == 0
+        first = 1 if fresh else r['start']
+        full_end = (r['K'] + 1) if fresh else r['start'] + r['K']
+        truth, end = st['truth'], r['end']
+        obs.append(holds('stop.samples_complete', len(truth) == rec['n'] == end,
+                         info='truth=%d n=%d end=%d' % (len(truth), rec['n'], end)))
+        obs.append(holds('stop.not_longer_than_grid', end <= full_end, info='end=%d full=%d' % (end, full_end)))
+        for k in range(first, min(end, len(truth)) - 1):
+            obs.append(holds('stop.false_before_last[k=%d]' % k, not truth[k],
+                             info='condition already true at instant %d but the run went on to %d' % (k, end - 1)))
+        if end < full_end and len(truth) >= end >= 1:
+            obs.append(holds('stop.true_at_early_end', truth[end - 1] and end - 1 >= first,
+                             info='run ended at instant %d of %d with the condition false' % (end - 1, full_end - 1)))
+        if end == full_end:
+            obs.append(holds('stop.full_length_run', True))
+        for i, d in enumerate(rec['el']):
+            for var, lst in d.items():
+                obs.append(holds('stop.nothing_after_last[i=%d,%s]' % (i, var), len(lst) == end))
         return obs
 
     def ob_C17(self, rec):
@@ -404,6 +566,9 @@ class SimHarness(HarnessBase):
                 obs.append(holds('tv.one_sample_per_instant[i=%d,%s]' % (i, var), len(lst) == n,
                                  info='%s of element %d: %d samples for %d instants' % (var, i, len(lst), n)))
                 obs.append(holds('tv.no_missing_sample[i=%d,%s]' % (i, var), all(x is not None for x in lst)))
+        if '_io' in rec:
+            obs.append(holds('tv.snapshot_succeeds', rec['_io']['snapshot'] == 'ok', info=rec['_io']['snapshot']))
+            obs.append(holds('tv.export_succeeds', rec['_io']['export'] == 'ok', info=rec['_io']['export']))
         for i, c in enumerate(rec['cur']):
             d = rec['el'][i]
             for var, key in (('angular position', 'pos'), ('angular speed', 'spd'), ('angular acceleration', 'acc'),
@@ -411,6 +576,63 @@ class SimHarness(HarnessBase):
                 if d[var] and d[var][-1] is not None and c[key] is not None:
                     obs.append(eq('tv.last_sample_is_current[i=%d,%s]' % (i, var), d[var][-1], c[key]))
         return obs
+
+
+class TwinHarness(SimHarness):
+    """two executions of the same model inside one exploration (shared symbols, shared per-instant load values):
+    their histories must coincide (C12)"""
+
+    def __init__(self, topo, schedule_a=(), schedule_b=(), **kw):
+        kw.setdefault('props', ('C12',))
+        super().__init__(topo, schedule=schedule_b, **kw)
+        self.schedule_a = tuple(schedule_a)
+        self.schedule_b = tuple(schedule_b)
+        self.name = 'twin:%s:%s|%s:%s%s' % (topo, _sname(schedule_a), _sname(schedule_b),
+                                            (self.control[0] if self.control else 'nocontrol'), kw.get('tag', ''))
+
+    def describe(self):
+        d = super().describe()
+        d.update(schedule_a=[list(o) for o in self.schedule_a], schedule_b=[list(o) for o in self.schedule_b])
+        return d
+
+    def finding_key(self, ob, values):
+        return 'twin:%s:%s|%s:%s' % (self.topo_name, _sname(self.schedule_a), _sname(self.schedule_b), ob.family)
+
+    def run(self, env):
+        a = self._run_one(env, self.schedule_a)
+        b = self._run_one(env, self.schedule_b)
+        return dict(A=a, B=b)
+
+    def boundary_excuse(self, sym_out, conc_out):
+        return False
+
+    def obligations(self, out):
+        if not out.ok:
+            return [holds('run_completes', False, info=repr(out.exc))]
+        A, B = out.value['A'], out.value['B']
+        obs = []
+        for tag, r in (('A', A), ('B', B)):
+            if r['raised'] is not None:
+                obs.append(holds('run_completes', False, info='%s: %s: %s' % (tag, r['raised'], r.get('raised_msg'))))
+        obs.append(holds('same.number_of_instants', A['n'] == B['n'], info='A has %d instants, B has %d' % (A['n'], B['n'])))
+        n = min(A['n'], B['n'])
+        for k in range(n):
+            obs.append(eq('same.time[k=%d]' % k, A['time'][k], B['time'][k], tol=1e-9))
+        for i, (ea, eb) in enumerate(zip(A['el'], B['el'])):
+            for var in ea:
+                la, lb = ea[var], eb.get(var, [])
+                obs.append(holds('same.samples[i=%d,%s]' % (i, var), len(la) == len(lb),
+                                 info='%s of element %d: %d vs %d samples' % (var, i, len(la), len(lb))))
+                for k in range(min(len(la), len(lb))):
+                    if la[k] is None or lb[k] is None:
+                        obs.append(holds('same.defined[i=%d,%s,k=%d]' % (i, var, k), la[k] is None and lb[k] is None))
+                        continue
+                    obs.append(eq('same.history[i=%d,%s,k=%d]' % (i, var, k), la[k], lb[k], tol=1e-9))
+        return obs
+
+
+def _sname(sched):
+    return '+'.join(''.join(str(x) for x in o if not isinstance(x, tuple)) for o in sched)
 
 
 def _ob2(name, exact, robust, trigger=None, prefer_robust=False):
